@@ -21,6 +21,7 @@ type Obligation struct {
 	Site    string // source position of the site where it is checked
 	Trail   []string
 	SMT     string
+	SMTLen  int // size of the query (kept when the text itself is dropped after the obligation was discharged)
 	Trivial bool   // goal simplified to true
 	Failed  string // engine-level failure reason (unsupported construct etc.)
 	// results
